@@ -32,7 +32,7 @@ def base_disk(rng, fl):
     return asides
 
 
-DISK_KINDS = ["cycle2", "selflink", "longcycle", "first_oob", "slash_name", "dotdot", "nul_name", "hi_name", "absurd_len", "flip_bat", "random_table",
+DISK_KINDS = ["cycle2", "selflink", "longcycle", "rho", "rho_selflink", "first_oob", "slash_name", "dotdot", "nul_name", "hi_name", "absurd_len", "flip_bat", "random_table",
               "random_catalog", "truncate", "random_bytes", "dangling", "shared", "dot_name", "slash_noblock", "slash_lateslot", "nul_noblock",
               "slash_ext", "nul_ext", "dotdot_ext"]
 TAPE_KINDS = ["slash", "dotdot", "nul", "nonutf8", "badtype", "truncated", "eof_first", "data_first", "short_leader", "random", "hugelen", "abs",
@@ -41,7 +41,7 @@ TAPE_KINDS = ["slash", "dotdot", "nul", "nonutf8", "badtype", "truncated", "eof_
 
 def mutate_disk(rng, asides, fl, kind=None):
     """-> (raw bytes, label)"""
-    kind = kind or rng.choice(["cycle2", "selflink", "longcycle", "first_oob", "slash_name", "dotdot", "nul_name", "hi_name", "absurd_len",
+    kind = kind or rng.choice(["cycle2", "selflink", "longcycle", "rho", "rho_selflink", "first_oob", "slash_name", "dotdot", "nul_name", "hi_name", "absurd_len",
                        "flip_bat", "random_table", "random_catalog", "truncate", "random_bytes", "dangling", "shared", "dot_name",
                        "slash_noblock", "slash_noblock", "slash_lateslot", "nul_noblock", "slash_ext", "slash_ext", "nul_ext", "dotdot_ext"])
     sides = [D.py_render(a) for a in asides]
@@ -65,6 +65,14 @@ def mutate_disk(rng, asides, fl, kind=None):
         ring = [f["chain"][0]] + [x for x in ring if x != f["chain"][0]][:rng.choice([3, 50, 150])]
         for i, b in enumerate(ring):
             bat[1 + b] = ring[(i + 1) % len(ring)]
+    elif kind in ("rho", "rho_selflink") and f:
+        # a chain that runs into a cycle which does NOT contain its first block: b0 -> b1 -> ... -> bk -> (b1 | bk)
+        ring = [x for x in range(1, 160) if x not in (40, 41) and x != f["chain"][0]]
+        rng.shuffle(ring)
+        path = [f["chain"][0]] + ring[:rng.choice([1, 2, 5, 40])]
+        for i in range(len(path) - 1):
+            bat[1 + path[i]] = path[i + 1]
+        bat[1 + path[-1]] = path[-1] if kind == "rho_selflink" else path[rng.randrange(1, len(path))]
     elif kind == "first_oob" and f:
         sec, off = cat_entry(f["slot"])
         sec[off + 13] = rng.choice([160, 161, 200, 254, 255])
